@@ -29,7 +29,7 @@ func drawE1(p mux.Profile, observeEvery int, probe bool, queries bool) func(t *r
 	return func(t *rapid.T) e1Scenario {
 		sc := e1Scenario{Script: mux.DrawScript(t, p), ObserveEvery: observeEvery, Probe: probe}
 		if queries && rapid.Bool().Draw(t, "withQuery") {
-			sc.Query = rapid.SampledFrom([]string{"a=1", "token=abc&x=y", "k=v%20w", "z=1&_HLS_skip=NO"}).Draw(t, "query")
+			sc.Query = rapid.SampledFrom([]string{"a=1", "token=abc&x=y", "token=abc&id=5", "k=v%20w", "z=1&_HLS_skip=NO"}).Draw(t, "query")
 		}
 		return sc
 	}
@@ -73,7 +73,7 @@ func scriptLabels(sc mux.Script, r *mux.E1Result) []string {
 			firstVideo = false
 			midGOP = op.Kind != mux.KindRA
 		}
-		if op.Tmpl > 0 {
+		if op.Tmpl > 0 && cfg.Tracks[op.Track].Codec != "av1" {
 			pocReorder = true
 		}
 	}
@@ -212,7 +212,7 @@ var propC03 = e1Prop("C03",
 
 var propC04 = e1Prop("C04",
 	"scripts of profile 'long' (hundreds of rotations, window sliding many times, SegmentCount 3..12); history invariants over successive playlists per stream and across streams; non-trivial = window slid >= 2 x SegmentCount times",
-	profLong, 4, false, false,
+	profLong, 4, false, true,
 	func(sc e1Scenario, r *mux.E1Result) bool { return r.Slides >= 2*sc.Script.Config.SegmentCount })
 
 var propC05 = e1Prop("C05",
